@@ -130,6 +130,10 @@ func ClearRules() error {
 func LoadRules(rules []*Rule) (bool, error) {
 	rulesMap := make(map[string]*Rule, 16)
 	for _, rule := range rules {
+		if rule == nil || rule.Rule == nil {
+			// without the embedded circuit breaking rule there is no resource name: never valid, ignore it
+			continue
+		}
 		rulesMap[rule.Resource] = rule
 	}
 	updateRuleMux.Lock()
